@@ -15,10 +15,10 @@ REMOVE_BLOCK = ("                    if let Some(sid) = &send_id_clone {\n"
 M("c16-closure-evaluates-at-fire-time", "R16.1",
   (X, CLOSURE_HEAD, CLOSURE_HEAD + "                    let _late = crate::expression_engine::parser::ExpressionParser::execute_str(\"1\", &mut global_clone.lock().unwrap());\n"))
 M("c16-closure-captures-unevaluated-content", "R16.1",
-  (X, "                let target_str = target_guard.to_string();\n", "                let target_str = target_guard.to_string();\n                let late_content = self.content.clone();\n"),
+  (X, "                let target_str = target_data.to_string();\n", "                let target_str = target_data.to_string();\n                let late_content = self.content.clone();\n"),
   (X, CLOSURE_HEAD, CLOSURE_HEAD + "                    let _ = late_content.is_some();\n"))
 M("c16-closure-captures-shared-target-cell", "R16.1",
-  (X, "                let target_str = target_guard.to_string();\n", "                let target_str = target_guard.to_string();\n                let late_name = event_name.clone();\n"),
+  (X, "                let target_str = target_data.to_string();\n", "                let target_str = target_data.to_string();\n                let late_name = event_name.clone();\n"),
   (X, CLOSURE_HEAD, CLOSURE_HEAD + "                    let _ = late_name.lock().is_ok();\n"))
 # ---- R16.2 must-consume
 M("c16-guard-dropped-when-no-sendid", "R16.2", (X, "                    } else {\n                        g.ignore();\n                    }\n", "                    }\n"))
@@ -34,7 +34,7 @@ M("c16-closure-removes-event-name", "R16.3", (X, "                        global
 # ---- R16.4 timer branch
 M("c16-timer-branch-for-zero-delay", "R16.4", (X, "        let result = if delay_ms > 0 {", "        let result = if delay_ms >= 0 {"))
 M("c16-minus-one-sent-immediately", "R16.4", (X, "        if delay_ms < 0 {\n            // Delay is invalid -> Abort", "        if delay_ms < -1 {\n            // Delay is invalid -> Abort"))
-M("c16-short-delay-to-internal-allowed", "R16.4", (X, "        if delay_ms > 0 && target_guard.to_string().eq(SCXML_TARGET_INTERNAL) {", "        if delay_ms > 1000 && target_guard.to_string().eq(SCXML_TARGET_INTERNAL) {"))
+M("c16-short-delay-to-internal-allowed", "R16.4", (X, "        if delay_ms > 0 && target_data.to_string().eq(SCXML_TARGET_INTERNAL) {", "        if delay_ms > 1000 && target_data.to_string().eq(SCXML_TARGET_INTERNAL) {"))
 M("c16-delay-taken-as-seconds", "R16.4", (F, ".schedule_with_delay(chrono::Duration::milliseconds(delay_ms), cb),", ".schedule_with_delay(chrono::Duration::seconds(delay_ms), cb),"))
 M("c16-delayexpr-ignored", "R16.4", (X, "                Ok(delay) => parse_duration_to_milliseconds(&delay.lock().unwrap().to_string()),",
                                         "                Ok(_delay) => self.delay_ms as i64,"))
